@@ -3,7 +3,7 @@
    model; [check_spec] evaluates the property itself on the observation (pulse preserved, duration preserved,
    postcondition, errors only where the rewrite is entitled to fail and without changing the pulse). *)
 From Coq Require Import ZArith QArith Qround Qabs Bool List.
-Require Import QV.common.Util QV.C06.Model QV.C06.Spec.
+Require Import QV.common.Util QV.C06.Model QV.C06.Spec QV.C06.Model_idx QV.C06.Model_vol.
 Import ListNotations.
 Open Scope Z_scope.
 
@@ -24,6 +24,15 @@ Inductive obs :=
 | ObsOk (after : tree) (dur_reported : Q) (depth_reported : Z) (balanced_reported : bool)
 | ObsErr (e : err) (after : tree).
 
+(* programs with volatile repetition counts: the tree is described with the kind of every count, and whether the rewrite
+   emitted a VolatileModificationWarning is observed too *)
+Inductive vobs :=
+| VObsOk (after : vtree) (dur_reported : Q) (depth_reported : Z) (balanced_reported : bool) (warned : bool)
+| VObsErr (e : err) (after : vtree) (warned : bool).
+
+(* recorded parent_index of every node (Model_idx.v) before and after a rewrite *)
+Inductive iobs := IObsOk (after : itree) | IObsErr (e : err) (after : itree).
+
 Inductive case :=
 | CRewrite (input : tree) (path : list nat) (o : opk) (impl : obs)
 | CSeq (input : tree) (prefix : list (list nat * opk)) (mid : tree) (path : list nat) (o : opk) (impl : obs)
@@ -32,6 +41,13 @@ Inductive case :=
 | CSpecOnly (input : tree) (path : list nat) (o : opk) (impl : obs)
        (* programs with volatile repetition counts: the model does not cover them (its split/merge decisions look at plain
           integers), so only the specification is evaluated on the implementation's observation *)
+| CVol (input : vtree) (path : list nat) (o : opk) (impl : vobs)
+       (* volatile counts, rewrites modelled in Model_vol.v (unroll, unroll_children, encapsulate, split_one_child,
+          _merge_single_child, cleanup, flatten_and_balance): model = implementation incl. which counts are volatile
+          afterwards and the warning; make_compatible / roll_constant_waveforms: specification only *)
+| CIdx (input : itree) (path : list nat) (o : opk) (impl : iobs)
+       (* unroll / unroll_children / encapsulate / split_one_child executed on the objects with their recorded
+          parent_index (some inputs with two recorded indices swapped by hand: the invariant of C09 broken on purpose) *)
 | CDec (input : tree) (path : list nat) (o : opk) (impl : obs) (sr : Q) (ramps : list (N * (Q * Q)))
        (before after : list (option Q))
        (* decimal stream: leaf durations that are no binary fractions (k/10, k/3 ...).  The tree part is exact (durations
@@ -139,6 +155,125 @@ Fixpoint run_prefix (steps : list (list nat * opk)) (t : tree) : result tree :=
   | (p, o) :: r => bind (run_op o p t) (run_prefix r)
   end.
 
+(* ---- volatile counts ---------------------------------------------------------------------------------------------- *)
+Fixpoint vtree_eqb (a b : vtree) : bool :=
+  match a, b with
+  | VNode r w m ch, VNode r' w' m' ch' =>
+      (rv r =? rv r') && Bool.eqb (is_vol r) (is_vol r')      (* the expression itself ([tag]) is not observed *)
+      && opt_eqb wf_eqb w w' && Bool.eqb (v_has_meas (VNode r w m ch)) (v_has_meas (VNode r' w' m' ch')) &&
+      (fix go (l : list vtree) (l' : list vtree) : bool :=
+         match l, l' with
+         | [], [] => true
+         | x :: t, y :: t' => vtree_eqb x y && go t t'
+         | _, _ => false
+         end) ch ch'
+  end.
+
+Fixpoint vat_path (f : vtree -> result (vtree * bool)) (path : list nat) (t : vtree) : result (vtree * bool) :=
+  match path with
+  | [] => f t
+  | i :: p => match nth_error (v_ch t) i with
+              | None => Err EIndex
+              | Some c => bind (vat_path f p c) (fun cw => Ok (vset_ch t (update_nth (v_ch t) i (fst cw)), snd cw))
+              end
+  end.
+
+Fixpoint vnode_at (path : list nat) (t : vtree) : option vtree :=
+  match path with
+  | [] => Some t
+  | i :: p => match nth_error (v_ch t) i with None => None | Some c => vnode_at p c end
+  end.
+
+Definition with_warn {A} (r : result A) (w : bool) : result (A * bool) := bind r (fun a => Ok (a, w)).
+
+(* None: the rewrite is not modelled on volatile programs *)
+Definition run_vop (o : opk) (path : list nat) (t : vtree) : option (result (vtree * bool)) :=
+  match o with
+  | OUnroll =>
+      Some match rev path with
+           | [] => Err EDomain
+           | i :: rp => vat_path (fun p => with_warn (vunroll_child p i) (vunroll_child_warns p i)) (rev rp) t
+           end
+  | OUnrollChildren => Some (vat_path (fun n => with_warn (vunroll_children_op n) (vunroll_children_warns n)) path t)
+  | OEncapsulate => Some (vat_path (fun n => Ok (vencapsulate n, false)) path t)
+  | OSplit idx => Some (vat_path (fun n => with_warn (vsplit_one_child n idx) (vsplit_warns n idx)) path t)
+  | OMerge => Some (vat_path (fun n => with_warn (vmerge_single_child n) false) path t)
+  | OCleanup rm mg => Some (vat_path (fun n => with_warn (vcleanup rm mg n) false) path t)
+  | OFlatten d => Some (vat_path (vflatten_and_balance_w fab_fuel d) path t)
+  | OMakeCompat _ _ _ | ORoll _ _ _ => None
+  end.
+
+Definition vcorr_step (input : vtree) (path : list nat) (o : opk) (impl : vobs) : bool :=
+  match run_vop o path input with
+  | None => true
+  | Some r =>
+      match r, impl with
+      | Ok (t', w), VObsOk after _ dp bal w' =>
+          vtree_eqb t' after && Bool.eqb w w' &&
+          match vnode_at path after with
+          | Some n => (vdepth n =? dp) && Bool.eqb (vbalanced n) bal
+          | None => match o with OUnroll => true | _ => false end
+          end
+      | Err e, VObsErr e' after _ => err_eqb e e' && vtree_eqb input after
+      | _, _ => false
+      end
+  end.
+
+Definition erase_obs (i : vobs) : obs :=
+  match i with
+  | VObsOk after d dp b _ => ObsOk (erase after) d dp b
+  | VObsErr e after _ => ObsErr e (erase after)
+  end.
+
+(* ---- recorded indices ----------------------------------------------------------------------------------------------- *)
+Fixpoint itree_eqb (a b : itree) : bool :=
+  match a, b with
+  | INode p r w m ch, INode p' r' w' m' ch' =>
+      opt_eqb Z.eqb p p' && (r =? r') && opt_eqb wf_eqb w w' &&
+      Bool.eqb (match m with [] => false | _ => true end) (match m' with [] => false | _ => true end) &&
+      (fix go (l : list itree) (l' : list itree) : bool :=
+         match l, l' with
+         | [], [] => true
+         | x :: t, y :: t' => itree_eqb x y && go t t'
+         | _, _ => false
+         end) ch ch'
+  end.
+
+Fixpoint iat_path (f : itree -> result itree) (path : list nat) (t : itree) : result itree :=
+  match path with
+  | [] => f t
+  | i :: p => match nth_error (i_ch t) i with
+              | None => Err EIndex
+              | Some c => bind (iat_path f p c) (fun c' => Ok (iset_ch t (update_nth (i_ch t) i c')))
+              end
+  end.
+
+Definition run_iop (o : opk) (path : list nat) (t : itree) : option (result itree) :=
+  match o with
+  | OUnroll => Some match rev path with
+                    | [] => Err EDomain
+                    | i :: rp => iat_path (fun p => iunroll p i) (rev rp) t
+                    end
+  | OUnrollChildren => Some (iat_path iunroll_children path t)
+  | OEncapsulate => Some (iat_path (fun n => Ok (iencapsulate n)) path t)
+  | OSplit idx => Some (iat_path (fun n => isplit n idx) path t)
+  | _ => None
+  end.
+
+Definition icorr (input : itree) (path : list nat) (o : opk) (impl : iobs) : bool :=
+  match run_iop o path input, impl with
+  | Some (Ok t'), IObsOk after => itree_eqb t' after
+  | Some (Err e), IObsErr e' after => err_eqb e e' && itree_eqb input after
+  | _, _ => false
+  end.
+
+(* the property under C09's invariant: indices right before => indices right afterwards and the same pulse *)
+Definition ispec (input : itree) (impl : iobs) : bool :=
+  negb (idx_ok input) ||
+  let after := match impl with IObsOk a => a | IObsErr _ a => a end in
+  idx_ok after && pieces_equivb (pieces (Model_idx.erase after)) (pieces (Model_idx.erase input))
+  && Qeq_bool (duration (Model_idx.erase after)) (duration (Model_idx.erase input)).
+
 Definition check_corr (c : case) : bool :=
   match c with
   | CRewrite input path o impl => corr_step input path o impl
@@ -148,6 +283,8 @@ Definition check_corr (c : case) : bool :=
       | Err _ => false
       end
   | CSpecOnly _ _ _ _ => true
+  | CVol input path o impl => vcorr_step input path o impl
+  | CIdx input path o impl => icorr input path o impl
   | CDec input path o impl _ _ _ _ => corr_step input path o impl     (* the samples are no model claim: spec only *)
   | CToWf input impl => result_wf_eqb (to_waveform input) impl
   | CSfg n m impl => result_Z_eqb (smallest_factor_ge n m) impl
@@ -251,6 +388,18 @@ Definition dec_samples_ok (ramps : list (N * (Q * Q))) (input : tree) (sr : Q) (
   && (Z.of_nat (length l) =? Qfloor (duration input * sr))
   && samples_ok ramps (pieces input) sr 0 l.
 
+(* volatile programs: the two clauses that [spec_step true] relaxes, evaluated exactly on the described counts: merging may
+   only fail where the code's own precondition (_has_single_child_that_can_be_merged, no waveform) is violated, and after
+   cleanup('merge_single_child') the node is not mergeable in the code's sense *)
+Definition vspec_exact (input : vtree) (path : list nat) (o : opk) (impl : vobs) : bool :=
+  match o, impl with
+  | OMerge, VObsErr EAssert _ _ =>
+      match vnode_at path input with Some n => negb (vmergeable n) || v_has_wf n | None => false end
+  | OCleanup _ true, VObsOk after _ _ _ _ =>
+      match vnode_at path after with Some n => negb (vmergeable n) | None => false end
+  | _, _ => true
+  end.
+
 Definition check_spec (c : case) : bool :=
   match c with
   | CRewrite input path o impl => spec_step false input path o impl
@@ -258,6 +407,8 @@ Definition check_spec (c : case) : bool :=
       pieces_equivb (pieces mid) (pieces input) && Qeq_bool (duration mid) (duration input)
       && spec_step false mid path o impl
   | CSpecOnly input path o impl => spec_step true input path o impl
+  | CIdx input _ _ impl => ispec input impl
+  | CVol input path o impl => spec_step true (erase input) path o (erase_obs impl) && vspec_exact input path o impl
   | CDec input path o impl sr ramps before after =>
       spec_step false input path o impl && dec_samples_ok ramps input sr before && dec_samples_ok ramps input sr after
   | CToWf input impl =>
